@@ -5,21 +5,25 @@
   windrose.py, monthlychart.py and psychchart.py by the correspondence ops of Drv/C17.lean
   (harness/props/c17.py).  It describes the code with the three fixes/C17_*.patch applied.
 
-  Coverage of the statement:
-    * hourly plot, reverse_y = False, non-wrapping period, any hour window (incl. overnight), any of
-      the 12 timesteps, leap or not, continuous/windowed/sparse data: PROVED (`C17_hourly_cells`,
-      from `C17_hourly_pattern`, `C17_hourly_face_count`, `C17_hourly_grid`);
-    * colours: PROVED that each face carries the colour computed from its own value
-      (`C17_colour_follows_value`), for both orientations;
-    * circular histogram: a sample is put in one bin only and that bin contains it, the wrapping
-      bin taking both arcs: PROVED (`C17_circ_bin_contains`);
-    * bar heights affine in the value: PROVED over `Rat` (`C17_bar_height_affine`);
-    * compared with the real code and oracle-checked on every run, NOT proved: mirrored rows under
-      reverse_y = True; year-wrapping periods; `histogram` partition by the edges; the wind-rose
-      sectors cover the circle / Σ sector counts + calms = samples / prevailing direction = arg-max
-      set; bars stand in their month's/day's column; psychrometric cell counts and their sum.
+  Coverage of the statement (all theorems quantify over all inputs of their clause, no size bounds):
+    * hourly plot, non-wrapping periods, any hour window (incl. overnight), all 12 timesteps, leap or
+      not, windowed/sparse data (`C17_hourly_cells`), y axis reversed (`C17_hourly_cells_reversed`,
+      `C17_reversed_order`), continuous collections (`C17_hourly_cells_continuous`); pieces:
+      `C17_hourly_pattern`, `C17_hourly_face_count`, `C17_hourly_grid`;
+    * colours: each face carries the colour computed from its own value (`C17_colour_follows_value`);
+    * histogram: `C17_hist_partition`, `C17_hist_bin_edges`, `C17_hist_inner_sum`;
+    * circular histogram: `C17_circ_bin_contains`; wind rose: `C17_windrose_counts` (Σ sector counts +
+      calms = samples, each kept sample in the one sector that takes it), `C17_prevailing_argmax`;
+    * bars: `C17_bar_height_affine`, `C17_bars_column_monthly`, `C17_bars_column_daily`;
+    * psychrometric chart: `C17_psych_bins`, `C17_psych_cell_bounds`.
+    * NOT proved, compared with the real code and oracle-checked on every run: year-wrapping periods
+      of the hourly plot (`is_reversed`), the IP psychrometric chart, `histogram` on edges that are not
+      increasing (the docstring excludes them), `histogram_circular` with `hist_range=None`.
 -/
 import Ladybug.Proofs.C17Lemmas
+import Ladybug.Proofs.C17Hist
+import Ladybug.Proofs.C17Bars
+import Ladybug.Proofs.C17Rev
 import Mathlib.Tactic.Ring
 
 open Cal
@@ -96,6 +100,54 @@ theorem C17_hourly_cells {α : Type} (ap : AP) (hwf : ap.WF) (hnr : ap.isReverse
 
 example : hourlyFaces ⟨1, 1, 22, 1, 3, 3, 2, false⟩ false false [(1350, 'a'), (1440, 'b'), (2910, 'c')]
     = .ok [(0, 45, 'a'), (1, 0, 'b'), (2, 1, 'c')] := by decide +kernel
+
+/-- **What `reverse_y` does to the order of the data**: the per-day rearrangement `revAll` (the
+    `values` / `colors` loop) is a permutation – every value keeps its single occurrence – and it
+    reverses a first day's run and continues with the later days. -/
+theorem C17_reversed_order {β : Type} (d : Nat) (A B : List (Nat × β)) (hA : ∀ p ∈ A, p.1 = d)
+    (hB : ∀ p ∈ B, p.1 ≠ d) :
+    revAll (A ++ B) = (A.map (·.2)).reverse ++ revAll B ∧ (revAll (A ++ B)).Perm ((A ++ B).map (·.2)) :=
+  ⟨revAll_split d A B hA hB, revAll_perm _⟩
+
+/-- **Each datum at the mirrored cell of its own time** (`reverse_y = True`).  For every
+    well-formed non-wrapping period – any hour window including overnight ones, all 12 timesteps, leap
+    or not – and every non-empty data list whose date-times are a chronological sub-list of the
+    period's steps (continuous, windowed, sparse): the coloured mesh has one face per value; the faces
+    come day column by day column, within a column in the reverse order of the day's data
+    (`C17_reversed_order`); and the face of the value at minute `m` lies in the column of its day and
+    in row `numY − 1 − (row of its time of day)`. -/
+theorem C17_hourly_cells_reversed {α : Type} (ap : AP) (hwf : ap.WF) (hnr : ap.isReversed = false)
+    (data : List (Nat × α)) (hne : data ≠ []) (hsub : (data.map (·.1)).Sublist (mAper ap).moys) :
+    hourlyFaces ap false true data = .ok ((revAll (data.map fun p => (dayOf p.1, p))).map fun p =>
+      (colOf ap p.1, numY ap - 1 - rowOf ap p.1, p.2)) :=
+  hourly_cells_reversed ap hwf hnr data hne hsub
+
+example : hourlyFaces ⟨1, 1, 9, 1, 2, 10, 1, false⟩ false true [(540, 'w'), (600, 'x'), (1980, 'y')]
+    = .ok [(0, 0, 'x'), (0, 1, 'w'), (1, 1, 'y')] := by decide +kernel
+
+/-- **Continuous collections** (the branch that removes no face): for a well-formed non-wrapping
+    period with the whole-day window and data holding every step of the period, the mesh is the one
+    the pattern branch gives for the full data – so `C17_hourly_cells` / `C17_hourly_cells_reversed`
+    apply: every value at the cell of its own time, mirrored when the y axis is reversed. -/
+theorem C17_hourly_cells_continuous {α : Type} (ap : AP) (hwf : ap.WF) (hnr : ap.isReversed = false)
+    (h0 : ap.st_hour = 0) (h23 : ap.end_hour = 23) (data : List (Nat × α))
+    (hM : data.map (·.1) = ap.moys) :
+    hourlyFaces ap true false data = .ok (data.map fun p => (colOf ap p.1, rowOf ap p.1, p.2)) ∧
+    (data ≠ [] → hourlyFaces ap true true data =
+      .ok ((revAll (data.map fun p => (dayOf p.1, p))).map fun p =>
+        (colOf ap p.1, numY ap - 1 - rowOf ap p.1, p.2))) := by
+  have hm : mAper ap = ap := by unfold mAper; simp [h0]
+  obtain ⟨mwf, mno, mnr, hx, hy, _, _⟩ := mAper_facts ap hwf hnr
+  obtain ⟨htd, _, hny, _⟩ := tDiff_eq_numY (mAper ap) mwf mno
+  have hlen : (mAper ap).moys.length = numX ap * numY ap := by
+    rw [moys_length_grid _ mwf mno mnr, hx, hy]
+  have hM' : data.map (·.1) = (mAper ap).moys := by rw [hm]; exact hM
+  have hsub : (data.map (·.1)).Sublist (mAper ap).moys := by rw [hM']
+  refine ⟨?_, fun hne => ?_⟩
+  · rw [hourly_continuous_eq ap false data hM' hlen (by rw [htd, hy]) (by rw [← hy]; exact hny)]
+    exact C17_hourly_cells ap hwf hnr data hsub
+  · rw [hourly_continuous_eq ap true data hM' hlen (by rw [htd, hy]) (by rw [← hy]; exact hny)]
+    exact hourly_cells_reversed ap hwf hnr data hne hsub
 
 /-! ### Colours -/
 
@@ -178,5 +230,347 @@ theorem C17_bar_height_affine (c : BarCfg) :
   · refine ⟨- (c.yDim / c.dRange * c.minV), fun v => ?_⟩
     simp only [BarCfg.hgt, hc, Bool.false_eq_true, if_false]
     ring
+
+/-- **Monthly bars stand in their month's column.**  In a group of collections of one data type whose
+    running bar number stays below the chart's horizontal bar count (`bc + #collections ≤ nBars`, what
+    `_horizontal_bar_count()` provides), the bar of the `mi`-th month of every collection has positive
+    width and its x range lies inside `[base_x + mi·x_dim, base_x + (mi+1)·x_dim]`, stacked or not,
+    for every `x_dim > 0`. -/
+theorem C17_bars_column_monthly (c : BarCfg) (nBars : Nat) (hx : 0 < c.xDim) (datas : List (List Rat))
+    (bc : Nat) (lines : List (Rat × Rat)) (hle : bc + datas.length ≤ nBars) :
+    ∀ bars ∈ (monthlyGroup c nBars bc datas lines).1, ∀ (mi : Nat) (b : Bar), bars[mi]? = some b →
+      c.baseX + (mi : Rat) * c.xDim ≤ b.x ∧ b.x + b.w ≤ c.baseX + ((mi : Rat) + 1) * c.xDim ∧ 0 < b.w :=
+  monthlyGroup_columns c nBars hx datas bc lines hle
+
+/-- **Daily bars stand in the column of their day's month – also when the period does not start on
+    the 1st.**  `dayAt dpm (0, st_day − 1) i` is the calendar walk: the (month index, day) reached `i`
+    days after the start day, stepping into the next listed month after a month's last day.  As long
+    as that walk stays inside the listed months (the data is not longer than the period), the bar of
+    the `i`-th value of every collection has positive width and its x range lies inside the column of
+    the month of its own day. -/
+theorem C17_bars_column_daily (c : BarCfg) (nBig : Nat) (dpm : List Nat) (stDay : Nat) (hx : 0 < c.xDim)
+    (datas : List (List Rat)) (bc : Nat) (lines : List (Rat × Rat)) (hle : bc + datas.length ≤ nBig)
+    (k : Nat) (bars : List Bar) (hk : (dailyGroup c nBig dpm stDay bc datas lines).1[k]? = some bars)
+    (i : Nat) (b : Bar) (hb : bars[i]? = some b)
+    (hvalid : ∀ j, j ≤ i → validDay dpm (dayAt dpm (0, stDay - 1) j)) :
+    let md := dayAt dpm (0, stDay - 1) i
+    c.baseX + (md.1 : Rat) * c.xDim ≤ b.x ∧ b.x + b.w ≤ c.baseX + ((md.1 : Rat) + 1) * c.xDim ∧ 0 < b.w :=
+  dailyGroup_columns c nBig dpm stDay hx datas bc lines hle k bars hk i b hb hvalid
+
+-- 15 Jan + 17 days = 1 Feb (month index 1, day 0); the walk is valid up to there
+example : dayAt [31, 28, 31] (0, 14) 17 = (1, 0) ∧ validDay [31, 28, 31] (dayAt [31, 28, 31] (0, 14) 17) := by
+  unfold validDay; decide
+
+/-! ### Histogram -/
+
+/-- **What `binOf` means in terms of the edges.**  For increasing edges, a key has exactly `j` edges
+    at or below it iff `j` is the position between the last edge `≤ k` and the first edge `> k`:
+    `edge_{j-1} ≤ k < edge_j` (no lower condition for `j = 0`, no upper one for `j = len`). -/
+theorem C17_hist_bin_edges (bins : List Rat) (hs : bins.Pairwise (· ≤ ·)) (k : Rat) (j : Nat) :
+    binOf bins k = j ↔ j ≤ bins.length ∧ (∀ x, 0 < j → bins[j - 1]? = some x → x ≤ k) ∧
+      (∀ x, bins[j]? = some x → k < x) := by
+  constructor
+  · rintro rfl
+    obtain ⟨hA, hB⟩ := binOf_prefix bins hs k
+    exact ⟨binOf_le bins k, fun x h hx => hA _ x (by omega) hx, fun x hx => hB _ x (Nat.le_refl _) hx⟩
+  · rintro ⟨h1, h2, h3⟩
+    exact binOf_unique bins hs k j h1 h2 h3
+
+/-- **`histogram` partitions its input by the half-open edges.**  For every value list, key function
+    and non-empty list of increasing edges (repeated edges allowed): the result has `len + 1` lists;
+    list `j` is exactly the (stably sorted) values whose key lies in `[edge_{j-1}, edge_j)` – list `0`
+    everything below the first edge, list `len` everything at/above the last edge, as the code does
+    (`C17_hist_bin_edges` spells `binOf` out); hence every value is in exactly one list, and the sizes
+    add up to the number of values. -/
+theorem C17_hist_partition {α : Type} (key : α → Rat) (values : List α) (bins : List Rat)
+    (hne : bins ≠ []) (hs : bins.Pairwise (· ≤ ·)) :
+    ∃ h, histogram key values bins = .ok h ∧ h.length = bins.length + 1 ∧
+      (∀ j, j ≤ bins.length → h[j]? = some ((sortByKey key values).filter fun a => binOf bins (key a) == j)) ∧
+      (∀ j a, j ≤ bins.length → (a ∈ h.getD j [] ↔ a ∈ values ∧ binOf bins (key a) = j)) ∧
+      (h.map List.length).sum = values.length := by
+  refine ⟨_, histogram_eq key values bins hne hs, by simp, ?_, ?_, ?_⟩
+  · intro j hj
+    rw [List.getElem?_map, List.getElem?_range (by omega)]; rfl
+  · intro j a hj
+    rw [List.getD_eq_getElem?_getD, List.getElem?_map, List.getElem?_range (by omega)]
+    simp only [Option.map_some, Option.getD_some, List.mem_filter, beq_iff_eq]
+    rw [(sortByKey_perm key values).mem_iff]
+  · rw [List.map_map]
+    have := sum_classes (sortByKey key values) (fun a => binOf bins (key a)) (bins.length + 1)
+    simp only [Function.comp_def]
+    rw [this, ← (sortByKey_perm key values).length_eq]
+    congr 1
+    rw [List.filter_eq_self]
+    intro a _
+    have := binOf_le bins (key a)
+    simp; omega
+
+/-- **Σ of the inner bins = number of in-range samples** (first edge `≤ key <` last edge). -/
+theorem C17_hist_inner_sum {α : Type} (key : α → Rat) (values : List α) (bins : List Rat)
+    (hs : bins.Pairwise (· ≤ ·)) (lo hi : Rat) (hlo : bins[0]? = some lo)
+    (hhi : bins[bins.length - 1]? = some hi) :
+    ((List.range (bins.length - 1)).map fun i =>
+      ((sortByKey key values).filter fun a => binOf bins (key a) == i + 1).length).sum =
+    (values.filter fun a => decide (lo ≤ key a) && decide (key a < hi)).length := by
+  have hn : 0 < bins.length := by
+    rcases Nat.eq_zero_or_pos bins.length with h | h
+    · rw [List.length_eq_zero_iff] at h; subst h; simp at hlo
+    · exact h
+  have h := sum_classes (sortByKey key values)
+    (fun a => if binOf bins (key a) = 0 then bins.length else binOf bins (key a) - 1) (bins.length - 1)
+  have e1 : ∀ i, i ∈ List.range (bins.length - 1) →
+      ((sortByKey key values).filter fun a => binOf bins (key a) == i + 1).length =
+      ((sortByKey key values).filter fun a =>
+        (if binOf bins (key a) = 0 then bins.length else binOf bins (key a) - 1) == i).length := by
+    intro i hi
+    have hi' : i < bins.length - 1 := by simpa using hi
+    congr 1
+    apply List.filter_congr
+    intro a _
+    by_cases h0 : binOf bins (key a) = 0
+    · simp [h0]; omega
+    · simp [h0]; omega
+  rw [List.map_congr_left e1, h, ← ((sortByKey_perm key values).filter _).length_eq]
+  congr 1
+  apply List.filter_congr
+  intro a _
+  have hle := binOf_le bins (key a)
+  have hz : binOf bins (key a) = 0 ↔ key a < lo := by
+    rw [C17_hist_bin_edges bins hs (key a) 0]
+    constructor
+    · intro h; exact h.2.2 lo hlo
+    · intro h; refine ⟨Nat.zero_le _, fun x h0 => by omega, ?_⟩
+      intro x hx; rw [hlo] at hx; have : lo = x := by simpa using hx
+      rw [← this]; exact h
+  have ht : binOf bins (key a) = bins.length ↔ hi ≤ key a := by
+    rw [C17_hist_bin_edges bins hs (key a) bins.length]
+    constructor
+    · intro h; exact h.2.1 hi hn hhi
+    · intro h; refine ⟨Nat.le_refl _, ?_, ?_⟩
+      · intro x _ hx; rw [hhi] at hx; have : hi = x := by simpa using hx
+        rw [← this]; exact h
+      · intro x hx; simp at hx
+  have hf : (if binOf bins (key a) = 0 then bins.length else binOf bins (key a) - 1) < bins.length - 1 ↔
+      (¬ binOf bins (key a) = 0 ∧ ¬ binOf bins (key a) = bins.length) := by
+    split <;> omega
+  rw [Bool.eq_iff_iff]
+  simp only [decide_eq_true_eq, Bool.and_eq_true]
+  rw [hf, hz, ht, not_lt, not_le]
+
+example : binOf [0, 1, 2, 3] (3 / 2) = 2 ∧ binOf [0, 1, 1, 2] 1 = 3 ∧ binOf [0, 1, 2, 3] (-1) = 0 := by
+  decide +kernel
+
+example : ([0, 1, 1, 2] : List Rat) ≠ [] ∧ ([0, 1, 1, 2] : List Rat).Pairwise (· ≤ ·) := by
+  refine ⟨by simp, ?_⟩
+  simp only [List.pairwise_cons, List.mem_cons, List.not_mem_nil, or_false, forall_eq_or_imp, forall_eq,
+    List.Pairwise.nil, and_true, false_imp_iff, implies_true]
+  norm_num
+
+/-! ### Wind rose -/
+
+/-- **Every sample is counted once: Σ sector counts + calms = samples.**  For every direction count
+    `n ≥ 1`, every series of (direction, analysis value) samples whose directions are reduced to
+    `[0, 360)` (what `d % 360.0` delivers – except for the tiny negative directions of the recorded
+    finding), speed or not: there are `n` sectors; sector `j` holds exactly the non-calm samples
+    whose direction bin `j` takes (first taker, `C17_circ_bin_contains`); calms are the samples with
+    `¬ v > 1e-10` of a speed series; and the sector sizes plus the calm count equal the number of
+    samples. -/
+theorem C17_windrose_counts (n : Nat) (hn : 1 ≤ n) (isSpeed : Bool) (samples : List (Rat × Rat))
+    (hdir : ∀ s ∈ samples, 0 ≤ s.1 ∧ s.1 < 360) :
+    let kept := if isSpeed then samples.filter fun p => decide (calmThreshold < p.2) else samples
+    ∃ h calm, windroseData n isSpeed samples = .ok (h, calm) ∧ h.length = n ∧
+      calm = samples.length - kept.length ∧
+      (∀ j, j < n → h[j]? = some (((sortByKey (·.1) kept).filter fun s =>
+        circBin (angles n) 0 360 s.1 == some j).map (·.2))) ∧
+      (h.map List.length).sum + calm = samples.length := by
+  intro kept
+  have hlen : (angles n).length - 1 = n := by simp [angles]
+  have hk : ∀ s ∈ kept, 0 ≤ s.1 ∧ s.1 < 360 := by
+    intro s hs
+    apply hdir
+    simp only [kept] at hs
+    split at hs
+    · exact (List.mem_filter.mp hs).1
+    · exact hs
+  have hkl : kept.length ≤ samples.length := by
+    simp only [kept]; split
+    · exact List.length_filter_le _ _
+    · exact Nat.le_refl _
+  have hw : windroseData n isSpeed samples = .ok
+      (((List.range ((angles n).length - 1)).map fun j => (sortByKey (·.1) kept).filter fun s =>
+        circBin (angles n) 0 360 s.1 == some j).map (·.map (·.2)), samples.length - kept.length) := by
+    unfold windroseData
+    simp only
+    rw [histogramCircular_eq]
+  refine ⟨_, _, hw, ?_, rfl, ?_, ?_⟩
+  · simp [hlen]
+  · intro j hj
+    rw [List.getElem?_map, List.getElem?_map, hlen, List.getElem?_range hj]
+    rfl
+  · rw [List.map_map, List.map_map, hlen]
+    have := circ_sum (fun p : Rat × Rat => p.1) (sortByKey (·.1) kept) (angles n) 0 360
+    rw [hlen] at this
+    simp only [Function.comp_def, List.length_map]
+    rw [this, List.filter_eq_self.mpr, (sortByKey_perm _ kept).length_eq]
+    · omega
+    · intro s hs
+      have hs' := (sortByKey_perm _ kept).mem_iff.mp hs
+      exact windrose_cover n hn s.1 (hk s hs').1 (hk s hs').2
+
+example : circBin (angles 4) 0 360 0 = some 0 ∧ circBin (angles 4) 0 360 359 = some 0 ∧
+    circBin (angles 4) 0 360 45 = some 1 ∧ circBin (angles 1) 0 360 200 = some 0 := by decide +kernel
+
+/-- **The prevailing direction is the arg-max set of the sector counts.**  There is a number `M`
+    that bounds every sector count and (for a non-empty rose) is attained; `prevailing` returns the
+    directions `i / n * 360` of exactly the sectors whose count is `M`, in increasing order of `i`
+    (all sectors when every count is 0). -/
+theorem C17_prevailing_argmax (counts : List Nat) :
+    ∃ M, (∀ c ∈ counts, c ≤ M) ∧ (counts ≠ [] → M ∈ counts) ∧
+      prevailing counts = ((counts.zipIdx).filter fun p => p.1 == M).map
+        fun p => (p.2 : Rat) / (counts.length : Rat) * 360 := by
+  let pairs := counts.zipIdx.map fun p => (p.1, (p.2 : Rat) / (counts.length : Rat) * 360)
+  have hfst : pairs.map (·.1) = counts := by
+    simp only [pairs, List.map_map, Function.comp_def]
+    exact List.zipIdx_map_fst _ _
+  refine ⟨maxFrom 0 pairs, ?_, ?_, ?_⟩
+  · intro c hc
+    rw [← hfst] at hc
+    obtain ⟨p, hp, rfl⟩ := List.mem_map.mp hc
+    exact maxFrom_bound pairs 0 p hp
+  · intro hne
+    rcases maxFrom_attained pairs 0 with h | ⟨p, hp, h⟩
+    · rw [h]
+      cases hc : counts with
+      | nil => exact absurd hc hne
+      | cons c cs =>
+        have hmem : c ∈ pairs.map (·.1) := by rw [hfst, hc]; simp
+        obtain ⟨p, hp, rfl⟩ := List.mem_map.mp hmem
+        have := maxFrom_bound pairs 0 p hp
+        rw [h] at this
+        have : p.1 = 0 := by omega
+        rw [← this]; simp
+    · rw [← h, ← hfst]; exact List.mem_map.mpr ⟨p, hp, rfl⟩
+  · show prevailGo 0 [] pairs = _
+    rw [prevailGo_eq]
+    simp only [ite_self, List.nil_append, pairs, List.filter_map, List.map_map, Function.comp_def]
+
+example : prevailing [3, 1, 3, 0] = [0, 180] ∧ prevailing [0, 0] = [0, 180] := by decide +kernel
+
+/-! ### Psychrometric chart -/
+
+/-- **Σ matrix = number of on-chart hours, and each cell counts exactly its own hours.**  For every
+    SI chart range `minT < maxT` and every series of (temperature, relative humidity) hours: the
+    flattened matrix sums to the number of hours with `minT ≤ t ≤ maxT`, and the entry of rh row
+    `y < 20`, temperature column `x < maxT − minT` is the number of on-chart hours whose cell
+    (`psyCell`, bounds in `C17_psych_cell_bounds`) is `(y, x)`. -/
+theorem C17_psych_bins (minT maxT : Int) (hT : minT < maxT) (hours : List (Rat × Rat)) :
+    (psyCounts minT maxT hours).sum = (hours.filter fun p => onChart minT maxT p.1).length ∧
+    ∀ y x, y < 20 → x < (tCats minT maxT).length →
+      (psyCounts minT maxT hours)[y * (tCats minT maxT).length + x]? =
+        some ((hours.filter fun p => onChart minT maxT p.1 && (psyCell minT maxT p.1 p.2 == (y, x))).length) := by
+  have hnT : 0 < (tCats minT maxT).length := by simp [tCats]; omega
+  have hrh : 0 < rhCats.length := by simp [rhCats]
+  have hcell : ∀ t rh, (psyCell minT maxT t rh).1 < 20 ∧ (psyCell minT maxT t rh).2 < (tCats minT maxT).length := by
+    intro t rh
+    have h1 := (catIndex_spec rhCats rh hrh).1
+    have h2 := (catIndex_spec (tCats minT maxT) t hnT).1
+    have : rhCats.length = 20 := by simp [rhCats]
+    exact ⟨by simpa [psyCell, this] using h1, by simpa [psyCell] using h2⟩
+  constructor
+  · unfold psyCounts
+    simp only
+    have := sum_classes ((hours.filter fun p => onChart minT maxT p.1).map fun p => psyCell minT maxT p.1 p.2)
+      (fun c => c.1 * (tCats minT maxT).length + c.2) (20 * (tCats minT maxT).length)
+    rw [this, List.filter_eq_self.mpr, List.length_map]
+    intro c hc
+    obtain ⟨p, _, rfl⟩ := List.mem_map.mp hc
+    obtain ⟨h1, h2⟩ := hcell p.1 p.2
+    simp only [decide_eq_true_eq]
+    calc _ < (psyCell minT maxT p.1 p.2).1 * (tCats minT maxT).length + (tCats minT maxT).length := by omega
+      _ = ((psyCell minT maxT p.1 p.2).1 + 1) * (tCats minT maxT).length := by rw [Nat.succ_mul]
+      _ ≤ 20 * (tCats minT maxT).length := Nat.mul_le_mul_right _ (by omega)
+  · intro y x hy hx
+    unfold psyCounts
+    simp only
+    have hidx : y * (tCats minT maxT).length + x < 20 * (tCats minT maxT).length := by
+      calc _ < y * (tCats minT maxT).length + (tCats minT maxT).length := by omega
+        _ = (y + 1) * (tCats minT maxT).length := by rw [Nat.succ_mul]
+        _ ≤ 20 * (tCats minT maxT).length := Nat.mul_le_mul_right _ (by omega)
+    rw [List.getElem?_map, List.getElem?_range hidx]
+    simp only [Option.map_some, Option.some.injEq]
+    rw [List.filter_map, List.length_map, List.filter_filter]
+    congr 1
+    apply List.filter_congr
+    intro p _
+    obtain ⟨h1, h2⟩ := hcell p.1 p.2
+    by_cases hon : onChart minT maxT p.1 = true
+    · simp only [hon, Bool.true_and, Function.comp_def, Bool.and_true]
+      by_cases hc : psyCell minT maxT p.1 p.2 = (y, x)
+      · simp [hc]
+      · have : ¬ (psyCell minT maxT p.1 p.2).1 * (tCats minT maxT).length + (psyCell minT maxT p.1 p.2).2 =
+            y * (tCats minT maxT).length + x := by
+          intro he
+          obtain ⟨e1, e2⟩ := pair_index_inj _ _ _ _ _ h2 hx he
+          exact hc (Prod.ext e1 e2)
+        simp [hc, this]
+    · simp [hon]
+
+/-- **The cell of an on-chart hour brackets its humidity and temperature**: row `y` means
+    `5·y ≤ rh < 5·(y+1)` (no lower bound in row 0, no upper bound in row 19: humidities below 0 or at/above
+    100 are clamped into the end rows); column `x` means `minT + x ≤ t < minT + x + 1`, the last
+    column also taking `t = maxT`. -/
+theorem C17_psych_cell_bounds (minT maxT : Int) (hT : minT < maxT) (t rh : Rat)
+    (hon : onChart minT maxT t = true) :
+    let c := psyCell minT maxT t rh
+    c.1 < 20 ∧ c.2 < (maxT - minT).toNat ∧
+    (c.1 = 0 ∨ ((5 * c.1 : Nat) : Rat) ≤ rh) ∧ (rh < ((5 * (c.1 + 1) : Nat) : Rat) ∨ c.1 = 19) ∧
+    ((minT : Rat) + (c.2 : Rat) ≤ t) ∧ (t < (minT : Rat) + (c.2 : Rat) + 1 ∨ c.2 = (maxT - minT).toNat - 1) := by
+  intro c
+  have hnT : 0 < (tCats minT maxT).length := by simp [tCats]; omega
+  have hlenT : (tCats minT maxT).length = (maxT - minT).toNat := by simp [tCats]
+  have hrh : 0 < rhCats.length := by simp [rhCats]
+  have hlen : rhCats.length = 20 := by simp [rhCats]
+  obtain ⟨a1, a2, a3⟩ := catIndex_spec rhCats rh hrh
+  obtain ⟨b1, b2, b3⟩ := catIndex_spec (tCats minT maxT) t hnT
+  have hrc : ∀ j, j < 20 → rhCats.getD j 0 = ((5 * (j + 1) : Nat) : Rat) := by
+    intro j hj; simp [rhCats, List.getD_eq_getElem?_getD, List.getElem?_map, List.getElem?_range hj]
+  have htc : ∀ j, j < (maxT - minT).toNat → (tCats minT maxT).getD j 0 = (minT : Rat) + (j : Rat) + 1 := by
+    intro j hj
+    simp [tCats, List.getD_eq_getElem?_getD, List.getElem?_map, List.getElem?_range hj]
+    ring
+  have hmin : (minT : Rat) ≤ t := by
+    have := hon; simp [onChart] at this; exact this.1
+  show (catIndex rhCats rh) < 20 ∧ (catIndex (tCats minT maxT) t) < (maxT - minT).toNat ∧ _
+  rw [hlen] at a1
+  rw [hlenT] at b1 b3
+  refine ⟨a1, b1, ?_, ?_, ?_, ?_⟩
+  · rcases Nat.eq_zero_or_pos (catIndex rhCats rh) with h | h
+    · exact Or.inl h
+    · right
+      have := a2 (catIndex rhCats rh - 1) (by omega)
+      rw [hrc _ (by omega)] at this
+      have e : catIndex rhCats rh - 1 + 1 = catIndex rhCats rh := by omega
+      rw [e] at this
+      exact not_lt.mp this
+  · rcases a3 with h | ⟨h, _⟩
+    · left; rw [hrc _ a1] at h; exact h
+    · right; rw [hlen] at h; exact h
+  · rcases Nat.eq_zero_or_pos (catIndex (tCats minT maxT) t) with h | h
+    · show (minT : Rat) + ((catIndex (tCats minT maxT) t : Nat) : Rat) ≤ t
+      rw [h]; simpa using hmin
+    · have := b2 (catIndex (tCats minT maxT) t - 1) (by omega)
+      rw [htc _ (by omega)] at this
+      have e : ((catIndex (tCats minT maxT) t - 1 : Nat) : Rat) + 1 = (catIndex (tCats minT maxT) t : Rat) := by
+        have : catIndex (tCats minT maxT) t - 1 + 1 = catIndex (tCats minT maxT) t := by omega
+        exact_mod_cast this
+      have := not_lt.mp this
+      show (minT : Rat) + ((catIndex (tCats minT maxT) t : Nat) : Rat) ≤ t
+      linarith
+  · rcases b3 with h | ⟨h, _⟩
+    · left; rw [htc _ b1] at h; exact h
+    · right; exact h
+
+example : psyCell (-20) 50 50 100 = (19, 69) ∧ psyCell (-20) 50 (5/2) 95 = (19, 22) ∧
+    psyCounts 0 10 [(1/2, 7), (1/2, 3), (11, 50), (10, 100)] ≠ [] := by decide +kernel
 
 end Plot
